@@ -91,7 +91,7 @@ contract(DEP + 'Initiator.activate', 'C19',
                        clf=Obj('models.dep_models:PeerTargetClf', _partial=False, lrt=Int(0, 3), wt=Int(0, 15),
                                gbt=Bytes(0, 47), did=Byte(), sent=Fixed([]))),
               target=PASSIVE,
-              options=DictOf({'did': Opt(Int(1, 14)), 'nad': None, 'brs': 0, 'lri': Int(0, 3),
+              options=DictOf({'did': Opt(Int(1, 14)), 'nad': None, 'brs': Int(0, 2), 'lri': Int(0, 3),
                               'gbi': Bytes(0, 48)})),
          name='C19/Initiator.activate',
          requires=['self.clf.did == (0 if options["did"] is None else options["did"])'],
@@ -100,7 +100,8 @@ contract(DEP + 'Initiator.activate', 'C19',
                   ('O-negotiate.rwt', 'self.rwt == 4096/13.56E6 * 2**(self.clf.wt if self.clf.wt < 15 else 14)'),
                   ('O-announce.lri', 'lr_of_pp(self.clf.sent[0][17]) == LR_OCTETS[options["lri"]]'),
                   ('O-announce.gbi', 'self.clf.sent[0][18:] == options["gbi"]'),
-                  ('O-pni', 'self.pni == 0')],
+                  ('O-pni', 'self.pni == 0'),
+                  ('O-negotiate.brty', 'self.target.brty == ("106A", "212F", "424F")[options["brs"]]')],
          raises={})
 contract(DEP + 'Target.activate', 'C19',
          dict(self=Obj(DEP + 'Target', _partial=False, pcnt=PCNT(), miu=None, did=None, nad=None, gbi=None,
